@@ -15,8 +15,8 @@ ALLOWED_AXIOMS: list = []
 REFUTED = [
     "C17_parts_from_cells_refuted (labels from unordered cells disagree with connectivity; open finding parts-unordered-cells)",
     "C17_parts_unused_refuted (a vertex outside every segment shares label 0; open finding parts-unused-vertex)",
-    "C17_first_delim_old_code_refuted (pre-repair transcription; repaired by fixes/C17-first-delimiter.patch)",
-    "C17_default_origin_old_code_refuted (pre-repair transcription; repaired by fixes/C17-default-origin.patch)",
+    "C17_first_delim_old_code_refuted (pre-repair transcription; repaired by /repo commit 4d6510a = fixes/C17-first-delimiter.patch)",
+    "C17_default_origin_old_code_refuted (pre-repair transcription; repaired by /repo commit 28d2509 = fixes/C17-default-origin.patch)",
 ]
 PARTIAL = [
     "C17_parts_from_cells_partial (chain-ordered, vertex-disjoint open polylines, vertices that belong to a segment)",
@@ -35,8 +35,8 @@ TRUSTED = [
 ASSUMPTIONS = [
     "delimiters, cell sizes and origins are dyadic rationals of small magnitude; rotations and dips are multiples of 90 degrees",
     "octree counts are powers of two (enforced by the setters); custom octree cells are given as int (I,J,K,NCells) rows",
-    "fixes/C17-default-origin.patch and fixes/C17-first-delimiter.patch are applied to the tree under test "
-    "(on the unrepaired tree the oracle reports bm-default-origin-indexerror / octree-default-origin-indexerror / bm-first-delimiter-ignored)",
+    "the model follows the repaired code (/repo commits 28d2509 default origin, 4d6510a first delimiter = fixes/C17-*.patch); on a tree "
+    "without them the oracle reports bm-default-origin-indexerror / octree-default-origin-indexerror / bm-first-delimiter-ignored",
 ]
 RULE = (
     "block models of every shape up to 4x4x4 (thorough) / 3x3x3 plus random 4s (quick) with increasing, decreasing and mixed "
@@ -52,7 +52,7 @@ LEVEL_TEXT = (
     "i+j*nU of the centroid array, each centre being rot(dip(local centre))+origin with local centres the mid points of "
     "consecutive delimiters (all delimiter vectors, origin given or not); the number of centroids equals n_cells for block "
     "model, grid and octree; every read after any history of setters returns the centroids of the current attributes (cache "
-    "coherence); the default octree tiles the base grid exactly once for ALL power-of-two dimensions (unbounded); curve cells "
+    "coherence); a well-formed drape model has one centre per layer at (x, y, mid point of the layer's top and bottom); the default octree tiles the base grid exactly once for ALL power-of-two dimensions (unbounded); curve cells "
     "derived from parts join exactly the consecutive vertices of a part. Partial: parts derived from cells agree with "
     "connectivity only for chain-ordered vertex-disjoint polylines on used vertices (refuted otherwise: two open findings); "
     "rotation and dip are parameters (float trigonometry not proved). Two defects of the pre-repair code (default origin "
